@@ -32,3 +32,372 @@ func (msc *multiShardCoordinator) SameShard(firstAddress []byte, secondAddress [
   ensures  same-shard-means-equal-ids-or-equal-bytes: r ==> msc.ComputeId(firstAddress) == msc.ComputeId(secondAddress) || bytesEq(firstAddress, secondAddress)
   assigns  nothing
 @*/
+
+// ---- C15: consensus-group selection (expandedListSampling.go, selectionBasedProvider.go, common.go) ----
+/*@
+func computeStartIndexAndNumAppearancesForValidator(expEligibleList []uint32, idx int64) (start int64, num int64)
+  requires idx-in-range: 0 <= idx && idx < len(expEligibleList)
+  ensures  contains-idx: 0 <= start && start <= idx && idx < start + num && start + num <= len(expEligibleList)
+  ensures  one-value: forall k :: start <= k && k < start + num ==> expEligibleList[k] == expEligibleList[idx]
+  ensures  maximal-left: start > 0 ==> expEligibleList[start-1] != expEligibleList[idx]
+  ensures  maximal-right: start + num < len(expEligibleList) ==> expEligibleList[start+num] != expEligibleList[idx]
+  assigns  nothing
+
+loop 1
+  invariant -1 <= i && i < idx
+  invariant forall k :: i < k && k <= idx ==> expEligibleList[k] == expEligibleList[idx]
+  decreases i + 1
+
+loop 2
+  invariant idx < i && i <= len(expEligibleList)
+  invariant 0 <= startIdx && startIdx <= idx
+  invariant forall k :: startIdx <= k && k < i ==> expEligibleList[k] == expEligibleList[idx]
+  invariant startIdx > 0 ==> expEligibleList[startIdx-1] != expEligibleList[idx]
+  decreases len(expEligibleList) - i
+@*/
+
+/*@
+// wsum(w, j): total weight of items [0, j) = position in the expanded list where the run of item j starts;
+// wend(w, j) = wsum(w, j) + w[j] = wsum(w, j+1): position just after the run of item j.
+// (two symbols instead of one recursive axiom: every unfolding step is triggered by a term of the other symbol, no matching loop)
+spec fn wend(w []uint32, j int) int
+  axiom j >= 0 ==> wend(w, j) == wsum(w, j) + w[j]
+spec fn wsum(w []uint32, j int) int
+  axiom wsum(w, 0) == 0
+  axiom j >= 0 ==> wsum(w, j+1) == wend(w, j)
+
+func (s *selectorExpandedList) expandList(weightList []uint32) (r []uint32, err error)
+  requires item-count-fits-uint32: len(weightList) <= 4294967296
+  ensures  accepts-positive-weights: err == nil ==> forall m :: 0 <= m && m < len(weightList) ==> weightList[m] >= 1
+  ensures  rejects-zero-weight: err != nil ==> exists m :: 0 <= m && m < len(weightList) && weightList[m] == 0
+  ensures  total-length: err == nil ==> len(r) == wsum(weightList, len(weightList))
+  ensures  run-of-each-item: err == nil ==> forall k :: 0 <= k && k < len(r) ==> 0 <= r[k] && r[k] < len(weightList) && wsum(weightList, r[k]) <= k && k < wend(weightList, r[k])
+  ensures  sorted: err == nil ==> forall a, b :: 0 <= a && a <= b && b < len(r) ==> r[a] <= r[b]
+  assigns  nothing
+
+loop 1
+  invariant 0 <= i && i <= len(weightList)
+  invariant fresh(expandedValidatorList)
+  invariant forall m :: 0 <= m && m < len(weightList) ==> weightList[m] == old(weightList[m])
+  invariant len(expandedValidatorList) == wsum(weightList, i)
+  invariant forall m :: 0 <= m && m < i ==> weightList[m] >= 1
+  invariant forall k :: 0 <= k && k < len(expandedValidatorList) ==> 0 <= expandedValidatorList[k] && expandedValidatorList[k] < i && wsum(weightList, expandedValidatorList[k]) <= k && k < wend(weightList, expandedValidatorList[k])
+  invariant forall a, b :: 0 <= a && a <= b && b < len(expandedValidatorList) ==> expandedValidatorList[a] <= expandedValidatorList[b]
+  decreases len(weightList) - i
+
+loop 2
+  invariant 0 <= i && i < len(weightList) && weightList[i] >= 1
+  invariant 0 <= j && j <= weightList[i]
+  invariant fresh(expandedValidatorList)
+  invariant forall m :: 0 <= m && m < len(weightList) ==> weightList[m] == old(weightList[m])
+  invariant len(expandedValidatorList) == wsum(weightList, i) + j && len(expandedValidatorList) <= wend(weightList, i)
+  invariant forall m :: 0 <= m && m < i ==> weightList[m] >= 1
+  invariant forall k :: 0 <= k && k < len(expandedValidatorList) ==> 0 <= expandedValidatorList[k] && expandedValidatorList[k] <= i && wsum(weightList, expandedValidatorList[k]) <= k && k < wend(weightList, expandedValidatorList[k])
+  invariant forall a, b :: 0 <= a && a <= b && b < len(expandedValidatorList) ==> expandedValidatorList[a] <= expandedValidatorList[b]
+  decreases weightList[i] - j
+@*/
+
+/*@
+// a stored run [startIndex, startIndex+numAppearances) of the expanded list
+spec fn entryOK(e *validatorEntry) bool = e != nil && e.startIndex >= 0 && e.numAppearances >= 1 && e.startIndex + e.numAppearances <= 9223372036854775807
+// the stored runs are valid, pairwise disjoint and sorted by position (stated transitively)
+spec fn runsValid(sbp *SelectionBasedProvider) bool = forall i :: 0 <= i && i < len(sbp.sortedSlice) ==> entryOK(sbp.sortedSlice[i])
+spec fn runsDisjoint(sbp *SelectionBasedProvider) bool = forall i, j :: 0 <= i && i < j && j < len(sbp.sortedSlice) ==> sbp.sortedSlice[i].startIndex + sbp.sortedSlice[i].numAppearances <= sbp.sortedSlice[j].startIndex
+spec fn runsSorted(sbp *SelectionBasedProvider) bool = runsValid(sbp) && runsDisjoint(sbp)
+
+func (sbp *SelectionBasedProvider) addToSortedSlice(ve *validatorEntry)
+  requires runs-sorted: runsSorted(sbp)
+  requires entry-valid: entryOK(ve)
+  requires new-run-overlaps-no-stored-run: forall i :: 0 <= i && i < len(sbp.sortedSlice) ==> ve.startIndex + ve.numAppearances <= sbp.sortedSlice[i].startIndex || sbp.sortedSlice[i].startIndex + sbp.sortedSlice[i].numAppearances <= ve.startIndex
+  requires size-fits-int64: 0 <= sbp.size && sbp.size + ve.numAppearances <= 9223372036854775807
+  ensures  size-grows-by-run: sbp.size == old(sbp.size) + ve.numAppearances
+  ensures  one-more-run: len(sbp.sortedSlice) == old(len(sbp.sortedSlice)) + 1
+  ensures  backing-array-kept-or-fresh: base(sbp.sortedSlice) == old(base(sbp.sortedSlice)) || fresh(sbp.sortedSlice)
+  // the new run is inserted between a stored run that ends before it and one that starts after it; all stored runs are kept in their order
+  ensures  inserted-in-order-rest-kept: exists p :: 0 <= p && p < len(sbp.sortedSlice) && sbp.sortedSlice[p] == ve && (forall i :: 0 <= i && i < p ==> sbp.sortedSlice[i] == old(sbp.sortedSlice[i])) && (forall i :: p < i && i < len(sbp.sortedSlice) ==> sbp.sortedSlice[i] == old(sbp.sortedSlice[i-1])) && (p == 0 || old(sbp.sortedSlice[p-1]).startIndex + old(sbp.sortedSlice[p-1]).numAppearances <= ve.startIndex) && (p == old(len(sbp.sortedSlice)) || ve.startIndex + ve.numAppearances <= old(sbp.sortedSlice[p]).startIndex)
+  assigns  sbp.size, sbp.sortedSlice, elems(sbp.sortedSlice)
+
+loop 1
+  invariant 0 <= i && i <= len(sbp.sortedSlice)
+  invariant sbp.sortedSlice == old(sbp.sortedSlice)
+  invariant sbp.size == old(sbp.size) + ve.numAppearances
+  invariant forall k :: 0 <= k && k < i ==> sbp.sortedSlice[k].startIndex + sbp.sortedSlice[k].numAppearances <= ve.startIndex
+  decreases len(sbp.sortedSlice) - i
+@*/
+
+/*@
+func (sbp *SelectionBasedProvider) adjustIndex(index uint64) (r uint64)
+  requires runs-sorted: runsSorted(sbp)
+  requires index-below-2^63: index < 9223372036854775808
+  ensures  not-smaller: r >= index
+  ensures  unchanged-without-runs: len(sbp.sortedSlice) == 0 ==> r == index
+  ensures  outside-every-stored-run: forall k :: 0 <= k && k < len(sbp.sortedSlice) ==> r < sbp.sortedSlice[k].startIndex || r >= sbp.sortedSlice[k].startIndex + sbp.sortedSlice[k].numAppearances
+  ensures  below-2^63-plus-last-run-end: len(sbp.sortedSlice) > 0 ==> r < 9223372036854775808 + sbp.sortedSlice[len(sbp.sortedSlice)-1].startIndex + sbp.sortedSlice[len(sbp.sortedSlice)-1].numAppearances
+  assigns  nothing
+
+loop 1
+  invariant -1 <= rangeindex && (rangeindex < len(sbp.sortedSlice) || rangeindex == -1)
+  invariant index >= index0 && (rangeindex == -1 ==> index == index0)     // `index` at the loop head is the loop variable, index0 the entry value
+  invariant rangeindex == -1 ==> index < 9223372036854775808
+  invariant rangeindex >= 0 ==> index < 9223372036854775808 + sbp.sortedSlice[rangeindex].startIndex + sbp.sortedSlice[rangeindex].numAppearances
+  invariant forall k :: 0 <= k && k <= rangeindex ==> index >= sbp.sortedSlice[k].startIndex + sbp.sortedSlice[k].numAppearances
+  decreases len(sbp.sortedSlice) - rangeindex
+@*/
+
+/*@
+// every stored run lies inside the list; its two ends are places where the list changes value (so it is a union of maximal runs)
+spec fn runsInList(sbp *SelectionBasedProvider, l []uint32) bool = forall k :: 0 <= k && k < len(sbp.sortedSlice) ==> sbp.sortedSlice[k].startIndex + sbp.sortedSlice[k].numAppearances <= len(l)
+spec fn runsBoundaries(sbp *SelectionBasedProvider, l []uint32) bool = forall k :: 0 <= k && k < len(sbp.sortedSlice) ==> (sbp.sortedSlice[k].startIndex == 0 || l[sbp.sortedSlice[k].startIndex - 1] != l[sbp.sortedSlice[k].startIndex]) && (sbp.sortedSlice[k].startIndex + sbp.sortedSlice[k].numAppearances == len(l) || l[sbp.sortedSlice[k].startIndex + sbp.sortedSlice[k].numAppearances] != l[sbp.sortedSlice[k].startIndex + sbp.sortedSlice[k].numAppearances - 1])
+
+func (sbp *SelectionBasedProvider) add(expElList []uint32, index int64)
+  requires runs-valid-and-allocated: forall k :: 0 <= k && k < len(sbp.sortedSlice) ==> entryOK(sbp.sortedSlice[k]) && allocated(sbp.sortedSlice[k])
+  requires runs-disjoint-sorted: runsDisjoint(sbp)
+  requires runs-in-list: runsInList(sbp, expElList)
+  requires runs-end-at-value-changes: runsBoundaries(sbp, expElList)
+  requires index-in-list: 0 <= index && index < len(expElList)
+  requires index-outside-every-stored-run: forall k :: 0 <= k && k < len(sbp.sortedSlice) ==> index < sbp.sortedSlice[k].startIndex || index >= sbp.sortedSlice[k].startIndex + sbp.sortedSlice[k].numAppearances
+  requires size-fits-int64: 0 <= sbp.size && sbp.size + len(expElList) <= 9223372036854775807
+  ensures  size-grows: sbp.size > old(sbp.size) && sbp.size <= old(sbp.size) + len(expElList)
+  ensures  one-more-run: len(sbp.sortedSlice) == old(len(sbp.sortedSlice)) + 1
+  ensures  backing-array-kept-or-fresh: base(sbp.sortedSlice) == old(base(sbp.sortedSlice)) || fresh(sbp.sortedSlice)
+  ensures  runs-valid: forall k :: 0 <= k && k < len(sbp.sortedSlice) ==> entryOK(sbp.sortedSlice[k]) && allocated(sbp.sortedSlice[k])
+  ensures  runs-disjoint-sorted: runsDisjoint(sbp)
+  ensures  runs-in-list: runsInList(sbp, expElList)
+  ensures  runs-end-at-value-changes: runsBoundaries(sbp, expElList)
+  ensures  index-covered: exists k :: 0 <= k && k < len(sbp.sortedSlice) && sbp.sortedSlice[k].startIndex <= index && index < sbp.sortedSlice[k].startIndex + sbp.sortedSlice[k].numAppearances
+  assigns  sbp.size, sbp.sortedSlice, elems(sbp.sortedSlice)
+@*/
+
+/*@
+// hash of (counter, randomness) read as a number: outside the model (hasher interface, encoding/binary)
+func (sbp *SelectionBasedProvider) computeRandomnessAsUint64(randomness []byte, index int) (r uint64)
+  trusted
+  assigns nothing
+
+func (sbp *SelectionBasedProvider) clean()
+  ensures  emptied: sbp.size == 0 && len(sbp.sortedSlice) == 0
+  assigns  sbp.size, sbp.sortedSlice
+
+func (sbp *SelectionBasedProvider) Get(randomness []byte, numValidators int64, expandedEligibleList []uint32) (r []uint32, err error)
+  requires starts-clean: sbp.size == 0 && len(sbp.sortedSlice) == 0
+  requires sample-size-not-negative: numValidators >= 0
+  ensures  rejects-empty-randomness: len(randomness) == 0 ==> err != nil
+  ensures  rejects-oversized-sample: numValidators > len(expandedEligibleList) ==> err != nil
+  ensures  nothing-on-error: err != nil ==> isNil(r)
+  ensures  group-size: err == nil ==> len(r) == numValidators
+  ensures  members-of-list: err == nil ==> forall t :: 0 <= t && t < len(r) ==> exists x :: 0 <= x && x < len(expandedEligibleList) && r[t] == expandedEligibleList[x]
+  // stated from the property, NOT discharged by the deductive check (needs 'every position of a selected value is covered by a stored run'); bounded stand-in only
+  ensures  distinct-members: err == nil && (forall a, b :: 0 <= a && a <= b && b < len(expandedEligibleList) ==> expandedEligibleList[a] <= expandedEligibleList[b]) ==> forall t, u :: 0 <= t && t < u && u < len(r) ==> r[t] != r[u]
+  ensures  left-clean: sbp.size == 0 && len(sbp.sortedSlice) == 0
+  ensures  list-untouched: forall x :: 0 <= x && x < len(expandedEligibleList) ==> expandedEligibleList[x] == old(expandedEligibleList[x])
+  assigns  sbp.size, sbp.sortedSlice, elems(sbp.sortedSlice)
+
+loop 1
+  invariant 0 <= i && i <= numValidators
+  invariant fresh(validators) && len(validators) == i && cap(validators) == numValidators && base(validators) != base(expandedEligibleList)
+  invariant list-untouched: forall x :: 0 <= x && x < len(expandedEligibleList) ==> expandedEligibleList[x] == old(expandedEligibleList[x])
+  invariant 0 <= sbp.size && sbp.size <= i * len(expandedEligibleList)
+  invariant base(sbp.sortedSlice) == old(base(sbp.sortedSlice)) || fresh(sbp.sortedSlice)
+  invariant forall k :: 0 <= k && k < len(sbp.sortedSlice) ==> entryOK(sbp.sortedSlice[k]) && allocated(sbp.sortedSlice[k])
+  invariant runsDisjoint(sbp)
+  invariant runsInList(sbp, expandedEligibleList)
+  invariant runsBoundaries(sbp, expandedEligibleList)
+  invariant members: forall t :: 0 <= t && t < i ==> exists x :: 0 <= x && x < len(expandedEligibleList) && validators[t] == expandedEligibleList[x]
+  decreases numValidators - i
+@*/
+
+// ---- C14: reshuffling keeps every shard at its minimum size (hashValidatorShuffler.go), length-only contracts ----
+/*@
+func (v Validator) PubKey() (r []byte)
+  pure
+
+// mlen(m, k): length of the validator list of shard k, as Go reads it (missing key = empty list)
+spec fn mlen(m map[uint32][]Validator, k uint32) int = has(m, k) ? len(m[k]) : 0
+spec fn minOf(k uint32, minMeta int, minShard int) int = k == core.MetachainShardId ? minMeta : minShard
+
+func computeNumToRemovePerShard(numEligible int, numWaiting int, nodesPerShard int) (r int, err error)
+  requires minimum-is-a-uint32-value: 0 <= nodesPerShard && nodesPerShard <= 4294967295
+  requires list-lengths: 0 <= numEligible && numEligible <= 281474976710655 && 0 <= numWaiting && numWaiting <= 281474976710655
+  ensures  error-iff-below-minimum: err != nil <==> numEligible + numWaiting < nodesPerShard
+  ensures  surplus-over-minimum: err == nil ==> r == numEligible + numWaiting - nodesPerShard && r >= 0
+  ensures  zero-on-error: err != nil ==> r == 0
+  assigns  nothing
+
+func computeMinNumberOfNodes(eligible map[uint32][]Validator, waiting map[uint32][]Validator, shardId uint32, minNodesMeta int, minNodesPerShard int) (r int)
+  requires minimums-in-range: 0 <= minNodesMeta && minNodesMeta <= 4294967295 && 0 <= minNodesPerShard && minNodesPerShard <= 4294967295
+  ensures  surplus-or-zero: r == max(0, mlen(eligible, shardId) + mlen(waiting, shardId) - minOf(shardId, minNodesMeta, minNodesPerShard))
+  assigns  nothing
+
+func computeNeededNodes(destination []Validator, source []Validator, maxNumNodes uint32) (r uint32)
+  requires list-lengths-fit-uint32: len(destination) <= 4294967295 && len(source) <= 4294967295
+  ensures  fills-up-to-maximum: r == min(len(source), maxNumNodes > len(destination) ? maxNumNodes - len(destination) : 0)
+  assigns  nothing
+
+func removeValidatorFromList(validatorList []Validator, index int) (r []Validator)
+  ensures  one-less: 0 <= index && index < len(validatorList) ==> len(r) == len(validatorList) - 1 && base(r) == base(validatorList) && off(r) == off(validatorList)
+  ensures  last-moved-into-hole: 0 <= index && index < len(validatorList) - 1 ==> r[index] == old(validatorList[len(validatorList)-1])
+  ensures  others-kept: forall k :: 0 <= k && k < len(validatorList) - 1 && k != index ==> validatorList[k] == old(validatorList[k])
+  ensures  unchanged-when-out-of-range: (index < 0 || index >= len(validatorList)) ==> r == validatorList
+  assigns  elems(validatorList)
+@*/
+
+/*@
+// hash-ordered permutation (sha256, sort.Strings, map): outside the model; only its length is used here.
+// Note: the body's append(v.PubKey(), randomness...) may write into spare capacity of a key's backing array (not visible through the key).
+func shuffleList(validators []Validator, randomness []byte) (r []Validator)
+  trusted
+  ensures  same-length: len(r) == len(validators) && fresh(r)
+  ensures  members-kept: forall k :: 0 <= k && k < len(r) ==> exists j :: 0 <= j && j < len(validators) && r[k] == validators[j]
+  assigns  nothing
+
+// sort.SliceStable with a closure: outside the model
+func sortKeys(nodes map[uint32][]Validator) (r []uint32)
+  trusted
+  ensures  all-keys-once: fresh(r) && len(r) == len(nodes) && (forall i :: 0 <= i && i < len(r) ==> has(nodes, r[i])) && (forall i, j :: 0 <= i && i < j && j < len(r) ==> r[i] < r[j])
+  assigns  nothing
+
+func shuffleOutShard(validators []Validator, validatorsToSelect int, randomness []byte) (out []Validator, rest []Validator)
+  requires count-not-negative: validatorsToSelect >= 0
+  ensures  takes-requested-or-all: len(out) == min(validatorsToSelect, len(validators))
+  ensures  split: len(out) + len(rest) == len(validators)
+  ensures  shuffled-out-were-in-list: forall k :: 0 <= k && k < len(out) ==> exists j :: 0 <= j && j < len(validators) && out[k] == validators[j]
+  // (the same for `rest` is true but not found by the solvers: rest[k] is r[n+k], an offset-indexed instance)
+  assigns  nothing
+
+func removeValidatorsFromList(validatorList []Validator, validatorsToRemove []Validator, maxToRemove int) (res []Validator, removed []Validator)
+  requires validators-not-nil: (forall k :: 0 <= k && k < len(validatorList) ==> validatorList[k] != nil) && (forall k :: 0 <= k && k < len(validatorsToRemove) ==> validatorsToRemove[k] != nil)
+  ensures  conserved: len(res) + len(removed) == len(validatorList)
+  ensures  capped: maxToRemove >= 0 ==> len(removed) <= maxToRemove
+  ensures  at-most-one-per-request: len(removed) <= len(validatorsToRemove)
+  ensures  results-fresh: fresh(res) && fresh(removed)
+  ensures  results-not-nil: (forall k :: 0 <= k && k < len(res) ==> res[k] != nil) && (forall k :: 0 <= k && k < len(removed) ==> removed[k] != nil)
+  ensures  kept-were-in-list: forall k :: 0 <= k && k < len(res) ==> exists j :: 0 <= j && j < len(validatorList) && res[k] == validatorList[j]
+  ensures  removed-were-in-list: forall k :: 0 <= k && k < len(removed) ==> exists j :: 0 <= j && j < len(validatorList) && removed[k] == validatorList[j]
+  ensures  removed-were-requested: forall k :: 0 <= k && k < len(removed) ==> exists j :: 0 <= j && j < len(validatorsToRemove) && bytesEq(removed[k].PubKey(), validatorsToRemove[j].PubKey())
+  assigns  nothing
+
+loop 1
+  invariant -1 <= rangeindex && (rangeindex < len(validatorsToRemove) || rangeindex == -1)
+  invariant fresh(resultedList) && fresh(removed) && base(resultedList) != base(removed)
+  invariant len(resultedList) + len(removed) == len(validatorList)
+  invariant len(removed) <= rangeindex + 1
+  invariant maxToRemove >= 0 ==> len(removed) <= maxToRemove
+  invariant forall k :: 0 <= k && k < len(resultedList) ==> resultedList[k] != nil
+  invariant forall k :: 0 <= k && k < len(removed) ==> removed[k] != nil
+  invariant forall k :: 0 <= k && k < len(validatorsToRemove) ==> validatorsToRemove[k] != nil
+  invariant forall j :: 0 <= j && j < len(validatorList) ==> validatorList[j] == old(validatorList[j])
+  invariant forall k :: 0 <= k && k < len(resultedList) ==> exists j :: 0 <= j && j < len(validatorList) && resultedList[k] == validatorList[j]
+  invariant forall k :: 0 <= k && k < len(removed) ==> exists j :: 0 <= j && j < len(validatorList) && removed[k] == validatorList[j]
+  invariant forall k :: 0 <= k && k < len(removed) ==> exists j :: 0 <= j && j < len(validatorsToRemove) && bytesEq(removed[k].PubKey(), validatorsToRemove[j].PubKey())
+
+loop 2
+  invariant -1 <= i && i < len(resultedList)
+@*/
+
+/*@
+func NewSelectionBasedProvider(hasher hashing.Hasher, maxSize uint32) (p *SelectionBasedProvider)
+  ensures  fresh-and-clean: fresh(p) && p.size == 0 && len(p.sortedSlice) == 0
+  assigns  nothing
+
+func (s *selectorExpandedList) Select(randSeed []byte, sampleSize uint32) (r []uint32, err error)
+  ensures  rejects-empty-randomness: len(randSeed) == 0 ==> err != nil
+  ensures  rejects-bad-sample-size: sampleSize == 0 || sampleSize > s.uniqueItems ==> err != nil
+  ensures  group-size: err == nil ==> len(r) == sampleSize
+  ensures  members-of-list: err == nil ==> forall t :: 0 <= t && t < len(r) ==> exists x :: 0 <= x && x < len(s.expandedList) && r[t] == s.expandedList[x]
+@*/
+
+/*@
+spec fn nval(m map[uint32]int, k uint32) int = has(m, k) ? m[k] : 0
+spec fn allNotNil(l []Validator) bool = forall k :: 0 <= k && k < len(l) ==> l[k] != nil
+spec fn mapNotNil(m map[uint32][]Validator) bool = forall s uint32, k int :: has(m, s) && 0 <= k && k < len(m[s]) ==> m[s][k] != nil
+
+func removeNodesFromShard(existingNodes map[uint32][]Validator, leavingNodes []Validator, shard uint32, nbToRemove int) (rest []Validator, n int)
+  requires map-not-nil: existingNodes != nil
+  requires cap-not-negative: nbToRemove >= 0
+  requires validators-not-nil: allNotNil(leavingNodes) && mapNotNil(existingNodes)
+  ensures  removed-at-most-cap: 0 <= n && n <= nbToRemove && n <= len(leavingNodes)
+  ensures  shard-shrinks-by-removed: has(existingNodes, shard) && mlen(existingNodes, shard) == old(mlen(existingNodes, shard)) - n
+  ensures  other-shards-untouched: forall s uint32 :: s != shard ==> has(existingNodes, s) == old(has(existingNodes, s)) && existingNodes[s] == old(existingNodes[s])
+  ensures  leaving-shrinks-at-most-by-removed: len(leavingNodes) - n <= len(rest) && len(rest) <= len(leavingNodes)
+  ensures  still-not-nil: allNotNil(rest) && mapNotNil(existingNodes)
+  ensures  shard-keeps-only-its-validators: forall k :: 0 <= k && k < len(existingNodes[shard]) ==> exists j :: 0 <= j && j < old(mlen(existingNodes, shard)) && existingNodes[shard][k] == old(existingNodes[shard][j])
+  ensures  rest-were-leaving: forall k :: 0 <= k && k < len(rest) ==> exists j :: 0 <= j && j < len(leavingNodes) && rest[k] == leavingNodes[j]
+  assigns  mapof(existingNodes)
+@*/
+
+/*@
+// per shard k: the budget numToRemove[k] goes down by exactly the number of validators removed from existingNodes[k], and stays >= 0
+func removeNodesFromMap(existingNodes map[uint32][]Validator, leavingNodes []Validator, numToRemove map[uint32]int) (m map[uint32][]Validator, rest []Validator)
+  requires maps-not-nil: existingNodes != nil && numToRemove != nil
+  requires budgets-not-negative: forall s uint32 :: nval(numToRemove, s) >= 0
+  requires validators-not-nil: allNotNil(leavingNodes) && mapNotNil(existingNodes)
+  ensures  same-map: m == existingNodes
+  ensures  budget-pays-for-removals: forall s uint32 :: nval(numToRemove, s) >= 0 && old(nval(numToRemove, s)) - nval(numToRemove, s) == old(mlen(existingNodes, s)) - mlen(existingNodes, s) && mlen(existingNodes, s) <= old(mlen(existingNodes, s))
+  ensures  leaving-not-longer: len(rest) <= len(leavingNodes)
+  ensures  still-not-nil: allNotNil(rest) && mapNotNil(existingNodes)
+  assigns  mapof(existingNodes), mapof(numToRemove)
+
+loop 1
+  invariant -1 <= rangeindex && (rangeindex < len(sortedShardIds) || rangeindex == -1)
+  invariant forall s uint32 :: nval(numToRemove, s) >= 0 && old(nval(numToRemove, s)) - nval(numToRemove, s) == old(mlen(existingNodes, s)) - mlen(existingNodes, s) && mlen(existingNodes, s) <= old(mlen(existingNodes, s))
+  invariant len(leavingNodes) <= len(leavingNodes0)
+  invariant allNotNil(leavingNodes) && mapNotNil(existingNodes)
+@*/
+
+/*@
+spec fn capOf(k uint32, numMeta uint32, numShard uint32) int = k == core.MetachainShardId ? numMeta : numShard
+
+// per shard: validators only move from source to destination, never more than needed to reach the shard's size.
+// (No `assigns`: the appends may reuse spare capacity of the destination lists. "Every shard of source was visited" is NOT
+//  provable: the engine models a map range as arbitrary keys, without exhaustion.)
+func moveMaxNumNodesToMap(destination map[uint32][]Validator, source map[uint32][]Validator, numMeta uint32, numShard uint32) (err error)
+  requires distinct-maps: destination != source
+  requires source-map-not-nil: source != nil     // (the model does not know that ranging over a nil map yields no iteration)
+  requires list-lengths-fit-uint32: forall s uint32 :: mlen(destination, s) + mlen(source, s) <= 4294967295
+  ensures  error-iff-no-destination: err != nil <==> destination == nil
+  ensures  moved-not-lost: forall s uint32 :: mlen(destination, s) + mlen(source, s) == old(mlen(destination, s) + mlen(source, s))
+  ensures  destination-grows-at-most-to-size: forall s uint32 :: mlen(destination, s) >= old(mlen(destination, s)) && mlen(destination, s) <= max(old(mlen(destination, s)), capOf(s, numMeta, numShard))
+
+loop 1
+  invariant destination != nil
+  invariant forall s uint32 :: mlen(destination, s) + mlen(source, s) == old(mlen(destination, s) + mlen(source, s))
+  invariant forall s uint32 :: mlen(destination, s) >= old(mlen(destination, s)) && mlen(destination, s) <= max(old(mlen(destination, s)), capOf(s, numMeta, numShard))
+@*/
+
+/*@
+func getMaxListSize(lists map[uint32][]Validator) (r int)
+  ensures  not-negative: r >= 0
+  assigns  nothing
+
+loop 1
+  invariant maxSize >= 0
+
+// slice bounds validators[indexValidators:indexValidators+toMove] and the returned rest
+func equalizeValidatorsLists(destLists map[uint32][]Validator, validators []Validator) (rest []Validator)
+  requires map-not-nil: destLists != nil
+  ensures  rest-is-a-suffix: len(rest) <= len(validators) && base(rest) == base(validators) && off(rest) + len(rest) == off(validators) + len(validators)
+
+loop 1
+  invariant -1 <= rangeindex && (rangeindex < len(sortedShardIds) || rangeindex == -1)
+  invariant 0 <= indexValidators && 0 <= remainingValidatorsNumber && indexValidators + remainingValidatorsNumber == len(validators)
+  invariant destLists != nil
+
+// C14, per shard, over the contracts of the real arithmetic helpers. e, w: eligible/waiting sizes at the start; r1 validators leave the waiting
+// list, r2 the eligible list; `out` validators are shuffled out; the refill takes `need` from the waiting list. The hypotheses about r1, r2, n2
+// are what removeLeavingNodes/removeNodesFromMap establish for a shard the map-range loops visit (not provable as a whole: a map range is
+// modelled as arbitrary keys without exhaustion) and what removeValidatorsFromList does for duplicate-free lists.
+lemma shard-keeps-minimum-size
+  vars e int, w int, minSize uint32, swapCap int, r1 int, r2 int, n2 int, elig []Validator, wait []Validator, rnd []byte
+  hyp  sizes: 0 <= e && e <= 100000000 && 0 <= w && w <= 100000000 && 0 <= swapCap
+  hyp  starts-at-minimum: e + w >= minSize
+  call n0, err0 = computeNumToRemovePerShard(e, w, int(minSize))
+  hyp  left-waiting-within-surplus: 0 <= r1 && r1 <= w && r1 <= max(0, e + w - minSize)
+  hyp  budget-capped-after-waiting-removal: n2 == min(min(e + w - minSize, swapCap), max(0, e + (w - r1) - minSize))
+  hyp  left-eligible-within-budget: 0 <= r2 && r2 <= e && r2 <= n2
+  hyp  lists: len(elig) == e - r2 && len(wait) == w - r1
+  call out, rest = shuffleOutShard(elig, n2 - r2, rnd)
+  call need = computeNeededNodes(rest, wait, minSize)
+  concl initial-budget-is-the-surplus: err0 == nil && n0 == e + w - minSize
+  concl eligible-at-least-minimum: len(rest) + need >= minSize
+  concl refill-available: need <= len(wait)
+@*/
